@@ -1030,6 +1030,26 @@ def corpus():
 def cases(rng, tier, shard, nshards):
     if shard == 0:
         yield from corpus()
+    # short histories that ALWAYS run, before the time budget can cut the random stream short (the detection of two stored changes,
+    # C06-m3 and C06-r3m2, had come to depend on how many random histories a loaded machine got through):
+    #  - the same wildcard text as action pattern and as case-sensitive condition value, in both orders of use;
+    #  - a ForAllValues / ForAnyValue operator on a key ABSENT from the context next to a Null guard on the same key, evaluated twice
+    #    with the same context object (the context must come back unchanged)
+    for order in (("q", "c", "c"), ("c", "q", "c"), ("e", "c", "q")):
+        t, ctx = aligned_template(rng)
+        calls, nid = [], 0
+        for op in order:
+            nid += 1
+            calls.append({"q": {"id": nid, "op": "query", "m": ["M", 0], "q": "allowed_actions", "arg": 0},
+                          "c": {"id": nid, "op": "cond", "m": ["M", 0], "k": 0, "ctx": 0, "via": "call"},
+                          "e": {"id": nid, "op": "expand", "m": ["M", 0]}}[op])
+        yield HIST, {"templates": [t], "eps": [{}], "ctxs": [ctx], "wls": [["*"]], "exprs": [], "calls": calls, "threads": True}
+    for qual in ("ForAllValues:StringEquals", "ForAnyValue:StringLike", "ForAllValues:StringLikeIfExists"):
+        st = {"Effect": "Allow", "Action": "s3:GetObject", "Resource": "*",
+              "Condition": {qual: {"aws:TagKeys": ["a", "b*"]}, "Null": {"aws:TagKeys": "false"}}}
+        t = {"Resources": {"Pol": {"Type": "AWS::IAM::ManagedPolicy", "Properties": {"PolicyDocument": {"Version": "2012-10-17", "Statement": [st]}}}}}
+        calls = [{"id": i + 1, "op": "cond", "m": ["M", 0], "k": 0, "ctx": 0, "via": v} for i, v in enumerate(["call", "eval", "call"])]
+        yield HIST, {"templates": [t], "eps": [{}], "ctxs": [{"aws:username": "u"}], "wls": [["*"]], "exprs": [], "calls": calls, "threads": True}
     n = {"quick": 400, "thorough": 6000}[tier]
     for _ in range(n):
         yield HIST, gen_history(rng, tier)
